@@ -463,6 +463,7 @@ fn chk_history(g: &mut Gen) -> Result<(), String> {
     let mut model_uuid = [0u8; 16];
     let steps = 1 + g.below(12);
     let mut trace = vec![];
+    let mut last_sel = 0u8;       // the selector most recently handed out by this context (C14 walk / C10)
     for _ in 0..steps {
         match g.below(8) {
             0 => { let v = g.u8();
@@ -471,6 +472,27 @@ fn chk_history(g: &mut Gen) -> Result<(), String> {
                                       _ => { c.get_request().set_eid(v); c.get_response().set_eid(v); model_eid = v; model_eid_s = v; trace.push(format!("set_eid({})", v)); } } }
             1 => { let u = if g.below(4) == 0 { vec![0u8; 16] } else { g.bytes(16) }; c.set_uuid(&u); model_uuid.copy_from_slice(&u); trace.push(format!("set_uuid({})", hex(&u))); }
             2 => { let p = gen_packet(g); if !decode_known_panic(&p) { let _ = quiet(|| c.decode_packet(&p).map(|x| x.0 as u8)); } trace.push(format!("decode({})", hex(&p))); }
+            5 => {
+                // Get Vendor Defined Message Support: follow the walk, ask for the end selector, or any selector (in range or not)
+                let sel = match g.below(4) { 0 => last_sel, 1 => 0xFF, 2 => g.below(vids.len() + 1) as u8, _ => g.u8() };
+                let src = g.u8();
+                let p = packet_bytes(addr, src, 0, &[0x80 | (g.u8() & 0x1f), 0x06, sel]);
+                let mut rb = [0u8; 64];
+                let r = quiet(|| c.process_packet(&p, &mut rb).map(|x| x.1)).map_err(|m| format!("history {:?}: process_packet({}) panicked: {}", trace, hex(&p), m))?;
+                trace.push(format!("process({})", hex(&p)));
+                let n = match r { Ok(Some(n)) => n, o => return Err(format!("history {:?}: Get Vendor Defined Message Support not answered: {:?}", trace, o.map_err(|e| err_class(&e)))) };
+                if (sel as usize) < vids.len() {
+                    let v = &vids[sel as usize];
+                    let mut f = vec![0u8, if sel as usize + 1 == vids.len() { 0xFF } else { sel + 1 }, v.format];
+                    if v.format == 0 { f.extend_from_slice(&[(v.data >> 8) as u8, v.data as u8]); } else { f.extend_from_slice(&v.data.to_be_bytes()); }
+                    f.extend_from_slice(&v.numeric_value.to_be_bytes());
+                    if rb[11..n - 1] != f[..] { return Err(format!("history {:?}: selector {} answered with {} expected fields {}", trace, sel, hex(&rb[..n]), hex(&f))); }
+                    last_sel = rb[12];
+                } else if rb[11..n - 1] != [2u8, 0xFF] {
+                    return Err(format!("history {:?}: out-of-range selector {} answered with {}", trace, sel, hex(&rb[..n])));
+                }
+                if rb[..n] != packet_bytes(src, addr, 0, &rb[9..n - 1])[..] { return Err(format!("history {:?}: vendor support answer {} is not a well-formed response back to {:#x}", trace, hex(&rb[..n]), src)); }
+            }
             3 | 4 => {
                 let op = if g.below(6) == 0 { g.u8() } else { g.below(4) as u8 }; let eid = 1 + g.u8() % 0xFE; let good = g.below(4) > 0;
                 let src = g.u8();
@@ -645,10 +667,11 @@ pub fn checks_for(pid: &str) -> Vec<(&'static str, Chk)> {
         "C07" => vec![enc, rcv, his],
         "C06" | "C08" | "C16" => vec![enc],
         "C11" => vec![rcv, his, enc],
-        "C09" | "C10" | "C17" => vec![rcv, enc],
+        "C09" | "C17" => vec![rcv, enc],
+        "C10" => vec![rcv, his, enc],
         "C12" => vec![rcv, his],
         "C13" => vec![his, rcv],
-        "C14" => vec![enu, rcv],
+        "C14" => vec![enu, his, rcv],
         "C15" => vec![his, rcv],
         "C18" | "C19" => vec![vie],
         _ => vec![enc, rcv, bur, his, enu, vie],
